@@ -159,6 +159,7 @@ type Ctx struct {
 	mu         sync.Mutex
 	drivers    chan *driverProc
 	queue      []pending
+	queueBytes int
 	wg         sync.WaitGroup
 	seen       map[[8]byte]struct{}
 	res        Result
@@ -246,10 +247,12 @@ func (c *Ctx) CmpF(suite, op, goOut string, cmp func(goOut, model string) (ok, s
 		return
 	}
 	c.queue = append(c.queue, pending{suite, op, goOut, cmp})
+	c.queueBytes += len(op)
 	var batch []pending
-	if len(c.queue) >= 4000 {
+	if len(c.queue) >= 4000 || c.queueBytes >= 1<<20 { // also bound a batch by size: long op lines (matrices) spread over the drivers
 		batch = c.queue
 		c.queue = nil
+		c.queueBytes = 0
 	}
 	c.mu.Unlock()
 	if batch != nil {
